@@ -20,7 +20,7 @@ from fuzzylite.library import representation
 PID = "C15"
 MODULES = ["FlVerif.Props.C15"]
 NAMESPACE = "C15"
-TIE_A = ["Tables.export"]
+TIE_A = ["Tables.export", "code:fuzzylite.library.Representation.construction_arguments"]
 RULE = ("the generated engines of C14 with arbitrary finite double term / range / threshold / default parameters, inf / NaN "
         "values, quotes and backslashes in descriptions, rule weights on the decimals grid or arbitrary x alias in {'fl', '', '*', "
         "custom} x {plain repr, encapsulated (PythonExporter)} x {formatted by black, not} x input rows; every component "
